@@ -72,6 +72,11 @@ func (c *Ctx) Goderive(dir string, args []string, extraEnv ...string) grun.Resul
 
 // Go runs the go tool in a scratch module.
 func (c *Ctx) Go(dir string, args ...string) grun.Result {
+	// -trimpath: scratch modules live at a fresh temporary path each; without it every one of them
+	// compiles its identical copy of the monitor library again and the build cache grows by it
+	if len(args) > 0 && (args[0] == "build" || args[0] == "vet" || args[0] == "test") {
+		args = append([]string{args[0], "-trimpath"}, args[1:]...)
+	}
 	return grun.Run(c.Env.GoBin(), args, grun.Opts{Dir: dir, Env: c.Env.ScratchEnv(), Wall: 15 * time.Minute})
 }
 
